@@ -944,3 +944,73 @@ def replacement_case(rng):
         out.append(("C30/run-never-finishes", "%d of %d runs of the new instance never finished" % (box["pending"], nruns),
                     dict(spec)))
     return out, dict(reused=box["reused"], spec=spec, peak=st["peak"], old_peak=box.get("old_peak"))
+
+
+def resume_case(rng):
+    """A run of an instance with limit L is snapshotted (ctx.to_dict through JSON) while its step is executing and then
+    cancelled; L fresh runs of the same instance then occupy every slot; the snapshot is resumed with
+    run(ctx=Context.from_dict(...)).  The resumed run is a run of the instance like any other: never more than L of its
+    runs execute steps at once, and once a slot is freed every run finishes.  Returns (failures, facts)."""
+    import json
+    from workflows import Context, Workflow, step
+    from workflows.events import StartEvent, StopEvent
+    limit = rng.choice([1, 1, 2, 3])
+    extra = rng.choice([0, 1])
+    st = dict(active=0, peak=0, finished=0, peak_after_resume=0, resumed=False)
+    gates = []
+
+    class Res(Workflow):
+        @step
+        async def only(self, ev: StartEvent) -> StopEvent:
+            st["active"] += 1
+            st["peak"] = max(st["peak"], st["active"])
+            if st["resumed"]:
+                st["peak_after_resume"] = max(st["peak_after_resume"], st["active"])
+            g = asyncio.Event()
+            gates.append(g)
+            try:
+                await g.wait()
+            finally:
+                st["active"] -= 1
+            st["finished"] += 1
+            return StopEvent(result="x")
+
+    out = []
+
+    async def main():
+        wf = Res(num_concurrent_runs=limit, timeout=None)
+        h0 = wf.run()
+        await vloop.settle()
+        data = json.loads(json.dumps(h0.ctx.to_dict()))
+        await h0.cancel_run()
+        await vloop.settle()
+        try:
+            await h0
+        except BaseException:  # noqa: BLE001
+            pass
+        gates.clear()
+        fresh = [wf.run() for _ in range(limit + extra)]
+        await vloop.settle()
+        st["resumed"] = True
+        hr = wf.run(ctx=Context.from_dict(wf, data))
+        await vloop.settle()
+        if st["active"] > limit:
+            out.append((None, "instance with num_concurrent_runs=%d has %d runs executing steps at once after a run snapshotted "
+                        "mid-step was resumed while %d fresh runs held every slot" % (limit, st["active"], limit + extra),
+                        dict(limit=limit, fresh_runs=limit + extra, executing=st["active"])))
+        for _ in range(6 * (limit + extra) + 12):
+            await vloop.settle()
+            if all(h.is_done() for h in fresh + [hr]):
+                break
+            while gates:
+                gates.pop(0).set()
+            if st["active"] > limit and not out:
+                out.append((None, "instance with num_concurrent_runs=%d has %d runs executing steps at once (a resumed run among "
+                            "them)" % (limit, st["active"]), dict(limit=limit, executing=st["active"])))
+        await vloop.settle()
+        if not all(h.is_done() for h in fresh + [hr]) and not out:
+            out.append((None, "a run resumed from a snapshot (or a fresh run queued behind it) never finished although every gate "
+                        "was opened", dict(limit=limit, fresh_runs=limit + extra)))
+
+    vloop.run(main())
+    return out, dict(spec=dict(limit=limit, fresh_runs=limit + extra), peak_after_resume=st["peak_after_resume"], finished=st["finished"])
